@@ -272,7 +272,7 @@ def walkParams (ext : Bool) (fuel : Nat) (data : Bytes) : Res (List Cap) :=
         match walkParams ext fuel (data.drop (ld + hdr)) with
         | .error e => .error e
         | .ok r => .ok (cs ++ r)
-    else .error malformed                    -- 'Unknow OPEN parameter': the code answers 2/0
+    else .error ⟨2, 4⟩                       -- 'Unknow OPEN parameter': Unsupported Optional Parameters
 
 /-- `Capabilities.unpack(data)` with `data = body[9:]`. -/
 def decodeOptional (data : Bytes) : Res (List Cap) :=
